@@ -26,6 +26,18 @@ CLAIMED = {
             "Theorem C12_confined holds for every mailbox path and every MID byte string: each path touched by ProcessInbound, GetInboundAnswer, SetSent, SetDeferred and AddOut cleans to the mailbox's segments followed by plain segments; the model (fileName validation added by a fix: commit, path.Join, the DIR_* constants regenerated from source) is compared with the files the real DirHandler touches inside a sandbox tree.",
             "Paths are lexical: symbolic links inside the mailbox and the operating system's own name resolution are outside the model; path.Clean/Join are modelled (validated by correspondence), the file system is observed by recursive snapshots.",
             "DESIGN.md section 6 C12"),
+    "C06": ("Coq proof of the chunking and stream-layout laws for all inputs + bit-exact correspondence of the Gallina transcription of Writer/Reader with the Go code and a round-trip oracle",
+            "PARTIAL proof: C06_write_chunking (bytes independent of the Write partition) and C06_layout hold for every input; the round-trip statement itself (C06_roundtrip_statement) is not yet a theorem and is decided per run by running the faithful model (search tree, adaptive Huffman tree with rebuild, bit output, reader with every Read call replayed) against the implementation on exhaustive short strings, window-boundary shapes, long inputs and the 17-bit-code witness, with decode(encode x) = x checked on both.",
+            "The unbounded round-trip claim rests on correspondence plus oracle, not on a theorem (proof plan in DESIGN.md section 6 C06); Go slices/bufio/bytes.Buffer modelled.",
+            "DESIGN.md section 6 C06"),
+    "C07": ("Coq proof that tables, constants, CRC and header are the canonical ones for all inputs (finite sweeps by vm_compute lifted to forall; CRC by induction) + cross-decoding against an independent Gallina LZHUF checked on the golden files",
+            "Theorems C07_constants/C07_tables_*/C07_crc/C07_crc_table/C07_header hold for every input: the regenerated tables equal the canonical prefix code, the table-driven zero-augmented CRC equals bitwise CRC-16/XMODEM for every byte string, every stream carries the canonical B2 header. PARTIAL: the two cross-decoding statements are Props decided per run: library streams decoded by the independent Canon codec (extracted from Coq) and Canon streams read by the library, both header modes; Canon.compress must reproduce lzhuf/testdata/*.lzh byte for byte.",
+            "That Canon is the canonical codec rests on its being transcribed from the published algorithm with its own constants and on the golden files; cross-decoding is correspondence, not theorem.",
+            "DESIGN.md section 6 C07"),
+    "C08": ("Coq proof of the output bound, constructor rejections and Close verdict for all streams, chunkings and Read size sequences + correspondence on mutated streams under a watchdog with a canonical-decoder verdict oracle",
+            "Theorems C08_bounded (never more bytes than the declared size over any Read sequence), C08_constructor_short/negative, C08_read_accounting and C08_close_certifies hold for every byte stream. PARTIAL: termination and freedom from index errors (C08_terminates_statement) and 'Close nil implies canonical decoding' (C08_verdict_statement) are Props decided per run: every truncation and bit flip of valid streams, header edits and splices are read by the implementation under a watchdog and read-count bound, every Read replayed in the model, and each nil Close is checked against the independent Canon decoder.",
+            "bufio (4096-byte fills), io.TeeReader and bytes.Buffer modelled; termination/no-panic rely on the adaptive-Huffman invariant that is checked by correspondence, not yet proved.",
+            "DESIGN.md section 6 C08"),
 }
 
 NOT_YET = {}
